@@ -310,7 +310,15 @@ func addDocument(d *indexData, ib *ShardBuilder, repoID int, docID uint32) error
 
 	doc.SymbolsMetaData = make([]*zoekt.Symbol, len(doc.Symbols))
 	for i := range doc.SymbolsMetaData {
-		doc.SymbolsMetaData[i] = d.symbols.data(d.fileEndSymbol[docID] + uint32(i))
+		sym := d.symbols.data(d.fileEndSymbol[docID] + uint32(i))
+		if sym == nil {
+			// The shard has no metadata for this section (Document.Symbols was
+			// set without SymbolsMetaData). Every section needs an entry in the
+			// destination: the builder dereferences it, and the metadata of later
+			// documents is found by section number.
+			sym = &zoekt.Symbol{}
+		}
+		doc.SymbolsMetaData[i] = sym
 	}
 
 	// calculate branches
